@@ -84,8 +84,9 @@ func NewClientOperation(o *Operation) ClientOperationTemplate {
 
 	for _, h := range o.Params.Headers.List {
 		c.Headers = append(c.Headers, ClientOperationHeaderTemplate{
-			Name:      h.V.Name,
-			FieldName: h.V.FieldName,
+			Name: h.V.Name,
+			// the field of the request's Headers struct is named by the handler (NewHandlerHeaderParameter)
+			FieldName: Title(h.V.Name),
 			Required:  h.V.Required,
 			Type:      h.V.Type,
 		})
